@@ -80,6 +80,25 @@ def mon_C01(lines, c):
     return None
 mon_C01.applies = lambda c: defined(c["defstate"], "enter") and defined(c["defstate"], "exit") and defined(c["defstate"], "reenter")
 
+
+def mon_C01_coq(lines, c):
+    """The lifecycle automaton of coq/Proofs/LifeMonitor.v, extracted: the one the theorem run_accepted proves to accept the
+    trace of every in-contract history of the model, applied here to the implementation's trace."""
+    import subprocess
+    from . import common
+    text = "\n".join(l.raw for l in lines) + "\n"
+    try:
+        r = subprocess.run([common.model_runner(), "c01mon", str(c["n"])], input=text, capture_output=True, text=True, timeout=60)
+    except Exception as e:
+        return 0, "the extracted lifecycle monitor could not be run: %r" % (e,)
+    out = r.stdout.strip()
+    if out.startswith("reject"):
+        t = out.split(" ", 2)
+        return max(0, int(t[1]) - 1), "the extracted Coq lifecycle monitor (Proofs/LifeMonitor.v, proved to accept every model trace) rejects this callback"
+    if out != "accept": return 0, "the extracted lifecycle monitor failed: %s %s" % (out[:100], r.stderr[:200])
+    return None
+mon_C01_coq.applies = lambda c: mon_C01.applies(c) and c["n"] <= 255
+
 # ------------------------------------------------------------------------------------------------
 class Call:
     """The events of one API call on one instance."""
@@ -694,7 +713,7 @@ def mon_C17(lines, c):
     return None
 mon_C17.applies = lambda c: True
 
-MONITORS = {"C01": [mon_C01], "C02": [mon_C02], "C03": [mon_C03], "C04": [mon_C04], "C05": [mon_C05], "C06": [mon_C06, mon_C06_guards],
+MONITORS = {"C01": [mon_C01, mon_C01_coq], "C02": [mon_C02], "C03": [mon_C03], "C04": [mon_C04], "C05": [mon_C05], "C06": [mon_C06, mon_C06_guards],
             "C07": [mon_C07, mon_C07_payload], "C08": [mon_C08], "C09": [mon_C09], "C10": [mon_C10], "C11": [mon_C11, mon_C07_payload],
             "C12": [mon_C12, mon_C12_lifecycle], "C15": [mon_C15], "C16": [mon_C16], "C17": [mon_C17]}
 
